@@ -571,6 +571,14 @@ class NodeModel(Engine):
                     raise Mismatch(kind, 'invalid-value-not-rejected', {'got': repr(res[1])[:200]})
                 return kind
             expect_none(call(node.set_attribute, key, arg), 'result', {'key': key, 'value': v})
+            if v[0] in ('handle', 'text'):
+                # an ordered dict stores the very object it is given
+                stored = [vn for kn, vn in node.yaml_node.value
+                          if isinstance(kn, yaml.ScalarNode) and kn.value == key]
+                if len(stored) != 1 or stored[0] is not arg:
+                    raise Mismatch(kind, 'node-value-not-stored-by-identity',
+                                   {'key': key, 'value': v, 'slots_with_key': len(stored)})
+                stats.count('set_attribute:identity-checked')
             if present:
                 for pair in m.value:
                     if pair[0].value == key:
